@@ -31,4 +31,7 @@ def main() -> int:
 
 
 if __name__ == "__main__":
-    sys.exit(main())
+    import os
+    rc = main()
+    sys.stdout.flush()
+    os._exit(rc)
